@@ -267,6 +267,9 @@ macro_rules! by_levels {
 }
 
 
+#[allow(unused_imports)]
+pub(crate) use by_levels;
+
 fn mk<const L: usize>(t: u64, tick: u32, trading: bool) -> Box<dyn DynBook> {
     Box::new(OrderBook::<L>::new(t, tick, trading))
 }
